@@ -3,7 +3,7 @@
    notification to the core; "every interleaving" = "every list". *)
 From Coq Require Import ZArith List Bool.
 From Common Require Import Res.
-From Core Require Import World Model Step Reach Rel_History Res_NoRaise Proofs_C02 Proofs_C03b Proofs_C02b Proofs_C10b Proofs_C02c Proofs_C02d.
+From Core Require Import World Model Step Reach Rel_History Res_NoRaise Proofs_C02 Proofs_C03b Proofs_C02b Proofs_C10b Proofs_C02c Proofs_C02d Proofs_C02e.
 Import ListNotations.
 Open Scope Z_scope.
 
@@ -129,6 +129,27 @@ Theorem C02_agreement_edit :
   settled_on w' c /\ pstate w' = pstate w /\ a_uri w' = a_uri w /\ a_state w' = a_state w /\ a_pos w' = a_pos w.
 Proof. exact edit_agreement. Qed.
 Print Assumptions C02_agreement_edit.
+
+(* The agreement clause for whole SETTLED SCHEDULES: a running player (playing or paused on an
+   entry of a tracklist whose entries are all playable, consume off) stays settled - core and
+   audio layer agree on entry and state, nothing pending - through EVERY finite sequence of
+   client commands pause / resume / next / previous / play(tlid) / seek within the track, each
+   issued after the notifications of the previous one were delivered (`ok`: the command fits
+   the state, the announced successor/predecessor exists, the tlid exists, the seek is within
+   the track). *)
+Theorem C02_settled_schedule_agreement :
+  forall shuf f ks w c,
+  running w c -> all_ok shuf f w c ks ->
+  running (fst (run_cmds shuf f w c ks)) (snd (run_cmds shuf f w c ks)).
+Proof. exact settled_schedule_agreement. Qed.
+Print Assumptions C02_settled_schedule_agreement.
+
+Theorem C02_running_agrees :
+  forall w c, running w c ->
+  current w = Some c /\ pending w = None /\ queue w = []
+  /\ a_uri w = Some (trk c) /\ a_state w = pstate w.
+Proof. exact running_agrees. Qed.
+Print Assumptions C02_running_agrees.
 
 (* ---- A recorded known finding as a kernel-checked fact about the model: seek() from the
    stopped state with a current track leaves the core reporting `stopped` while the audio
